@@ -342,7 +342,7 @@ func (s *Server) view(tx *txState, t *Table) []*row {
 	if tx == nil {
 		return t.rows
 	}
-	ov := tx.overlay[strings.ToLower(t.Name)]
+	ov := tx.overlay[strings.ToLower(t.qname())]
 	if len(ov) == 0 {
 		return t.rows
 	}
@@ -362,7 +362,7 @@ func (s *Server) view(tx *txState, t *Table) []*row {
 }
 
 func (tx *txState) put(t *Table, kv, vals []Value) {
-	n := strings.ToLower(t.Name)
+	n := strings.ToLower(t.qname())
 	m := tx.overlay[n]
 	if m == nil {
 		m = map[string]*ovRow{}
@@ -372,7 +372,7 @@ func (tx *txState) put(t *Table, kv, vals []Value) {
 }
 
 func (tx *txState) del(t *Table, kv []Value) {
-	n := strings.ToLower(t.Name)
+	n := strings.ToLower(t.qname())
 	m := tx.overlay[n]
 	if m == nil {
 		m = map[string]*ovRow{}
@@ -447,7 +447,7 @@ type TableDump struct {
 }
 
 func (s *Server) dumpTable(t *Table) TableDump {
-	d := TableDump{Name: t.Name, AutoInc: t.autoInc, Rows: [][]TaggedValue{}}
+	d := TableDump{Name: t.qname(), AutoInc: t.autoInc, Rows: [][]TaggedValue{}}
 	for _, c := range t.Cols {
 		d.Columns = append(d.Columns, c.Name)
 		d.Types = append(d.Types, c.Type.ColumnTypeText())
